@@ -129,9 +129,10 @@ def plan(tier, seed):
         n_grid, n_hist, parts, secs = 2000, 2000, 5, 35
         n_rt, rt_parts = 64, 2
     else:
-        n_grid, n_hist, parts, secs = 700_000, 450_000, 7, 560
+        n_grid, n_hist, parts, secs = 700_000, 450_000, 5, 540
         n_rt, rt_parts = 12000, 2
     shards = []
+    # thorough: 16 shards in all, one wave of the driver's 16 workers
     for kind, total in (('grid', n_grid), ('hist', n_hist)):
         for p, (f, n) in enumerate(split(total, parts)):
             shards.append({'name': f'{kind}{p}', 'mode': 'nrt', 'kind': kind,
@@ -142,14 +143,14 @@ def plan(tier, seed):
                        'first_case': f, 'n': n, 'secs': secs,
                        'hard_timeout': secs + 120})
     # tasks on known beats while plain threads poll the clocks (vf/c12_conc.py)
-    n_rtc, cparts, csecs = (24, 2, 12) if tier == 'quick' else (1200, 3, 300)
+    n_rtc, cparts, csecs = (24, 2, 12) if tier == 'quick' else (1200, 2, 360)
     for p, (f, n) in enumerate(split(n_rtc, cparts)):
         shards.append({'name': f'rtc{p}', 'mode': 'rt', 'kind': 'rtc',
                        'first_case': f, 'n': n, 'secs': csecs,
                        'p_yield': 0.2, 'hard_timeout': csecs + 120})
     # map changes from a plain thread racing with those of routines on the
     # clocks (vf/c12_race.py)
-    n_rtm, mparts, msecs = (64, 4, 20) if tier == 'quick' else (800, 4, 300)
+    n_rtm, mparts, msecs = (64, 4, 20) if tier == 'quick' else (500, 2, 360)
     for p, (f, n) in enumerate(split(n_rtm, mparts)):
         shards.append({'name': f'rtm{p}', 'mode': 'rt', 'kind': 'rtm',
                        'first_case': f, 'n': n, 'secs': msecs,
